@@ -1,7 +1,7 @@
 (** Entry points for platform conversion (kernel K-platform). *)
 From V Require Import base.Prelude base.Strs gen.Tables model.Cfg model.Names model.Wildcard
   model.Addr model.Ports model.Ace model.Lex model.AddrText model.AceText model.AclText model.Shading
-  model.SplitPorts model.Platform proofs.PlatformProofs proofs.ClassCheck run.RunAddr run.RunAce run.RunText.
+  model.SplitPorts model.Platform proofs.PlatformProofs run.RunAddr run.RunAce run.RunText.
 Local Open Scope N_scope.
 
 Definition to_item (i : aitem) : item ace :=
@@ -36,8 +36,3 @@ Definition run_addr_platform (pl pl' : platform) (line : string) : val :=
   res_val (fun a => VL [RunAddr.v_addr a; VS (render_addr pl' a)])
           (do a <- parse_address_text pl 16 (init_line line); addr_set_platform pl' 16 a).
 
-(** is this conversion inside the class of the certificate-free theorem
-    ([ClassCheck.conversion_checked])?  Counted by the check. *)
-Definition acl_in_class (c c' : cfg) (lines : list string) : bool :=
-  let cl := classify_all c lines in
-  negb (aborted cl) && plat_okb (plat c) && plat_okb (plat c') && forallb (item_srcb c) (items_of cl).
